@@ -509,7 +509,8 @@ def dead_local_stores(ctx, f):
 
 
 DEAD_STORE_OK = {
-    ("AddJitterOp", "L"): "the factorisation is attempted for its LinAlgError; the factor itself is recomputed by the caller",
+    # (function, callee of the dropped value)
+    ("AddJitterOp", "cholesky"): "the factorisation is attempted for its LinAlgError; the factor itself is recomputed by the caller",
 }
 
 
@@ -521,7 +522,7 @@ def dead_store_clause(ctx, rep, clause, relpaths, what):
             continue
         n += 1
         for a, v in dead_local_stores(ctx, f):
-            if (f.name, v) in DEAD_STORE_OK:
+            if (f.name, fn_name(a.value)) in DEAD_STORE_OK:
                 continue
             rep.bad(clause, "dead_store", f"{f.short}: the value bound to `{v}` is used", f, a,
                     f"`{U(a)[:70]}` computes a value that no path reads afterwards: {what}")
@@ -560,3 +561,70 @@ def shared_mutable_stores(ctx, f):
         if len(sinks) >= 2:
             out.append((name, sinks))
     return out
+
+
+# ------------------------------------------------------------------ cross-cutting lints over the files a property anchors in
+TRUTHY_OK = {}
+
+
+def anchor_files(prop):
+    import json
+    import os
+    here = os.path.dirname(os.path.dirname(os.path.dirname(os.path.abspath(__file__))))
+    with open(os.path.join(here, "properties.jsonl")) as fh:
+        for line in fh:
+            d = json.loads(line)
+            if d.get("id") == prop:
+                return list(d.get("anchors", {}).get("files", []))
+    return []
+
+
+def cross_cutting(ctx, rep, prop):
+    """Lints that are not specific to one property, run over the files the property anchors in (clause X).  Each of them
+    matched nothing (or only the listed exceptions) on the tree the rules were written for, and each was the mechanism of at
+    least one seeded defect: a value computed and dropped, one fresh list stored in two places, list positions deleted in
+    ascending order, a container mutated while it is iterated, a running max / min that forgets its history, an optional
+    number tested for truth."""
+    files = set(anchor_files(prop))
+    funcs = [f for f in sorted(ctx.P.functions.values(), key=lambda f: f.qualname) if f.module.relpath in files]
+    if not funcs:
+        rep.info("X", "cross_cutting", f"no function of the anchored files of {prop} found", None, None, "")
+        return
+    bad = 0
+    for f in funcs:
+        for a, v in dead_local_stores(ctx, f):
+            if (f.name, fn_name(a.value)) in DEAD_STORE_OK:
+                continue
+            bad += 1
+            rep.bad("X", "dead_store", f"{f.short}: the value bound to `{v}` is used", f, a,
+                    f"`{U(a)[:70]}` computes a value that no path reads afterwards: an update meant for a stored object is applied to a local")
+        for name, sinks in shared_mutable_stores(ctx, f):
+            bad += 1
+            rep.bad("X", "aliasing", f"{f.short}: `{name}` is stored in one place", f, sinks[0],
+                    f"the fresh container `{name}` is stored in {len(sinks)} long-lived places without a copy: growth of one shows in the other")
+        for st, txt in ascending_index_deletion(ctx, f):
+            bad += 1
+            rep.bad("X", "index_shift", f"{f.short}: positions are deleted from the end", f, st,
+                    f"`{txt}` inside a loop over ascending positions of the same list: every deletion shifts the later positions")
+        try:
+            mdi = mutation_during_iteration(ctx, f)
+        except Exception:
+            mdi = []
+        for st, fld, txt in mdi:
+            bad += 1
+            rep.bad("X", "iter_mutation", f"{f.short}: `{fld}` is not changed while it is iterated", f, st,
+                    f"`{txt}` changes the container the enclosing loop iterates: elements are skipped (or RuntimeError)")
+        for st, txt in broken_accumulators(ctx, f):
+            bad += 1
+            rep.bad("X", "accumulator", f"{f.short}: the running extreme includes its previous value", f, st,
+                    f"`{txt}`: after the loop the value depends on the last iteration only")
+        for p_ in numeric_optional_params(f):
+            for u in truthiness_uses(f, p_):
+                if (f.qualname, p_) in TRUTHY_OK:
+                    continue
+                bad += 1
+                rep.bad("X", "guarded_by", f"{f.short}: optional number `{p_}` is tested with `is None`, not for truth", f, u,
+                        f"`{U(u)[:70]}` treats `{p_} = 0` as 'not given'")
+    rep.put(bad == 0, "X", "cross_cutting", f"cross-cutting lints over the {len(files)} anchored file(s)", None, None,
+            f"{len(funcs)} functions: no dropped value, shared fresh container, ascending index deletion, mutation while iterating, "
+            "forgetful accumulator or truthiness test on an optional number")
